@@ -52,7 +52,9 @@ struct c08_session : public vsim_session {
           << " f=" << vs_hex(c->f)
           << " ext=" << (c->is_enabled(colvardeps::f_cv_extended_Lagrangian) ? 1 : 0)
           << " xr=" << vs_hex(c->value()) << " xa=" << vs_hex(c->actual_value())
-          << " fr=" << vs_hex(c->fr) << " extk=" << vs_hex(c->ext_force_k) << "\n";
+          << " fr=" << vs_hex(c->fr) << " extk=" << vs_hex(c->ext_force_k)
+          << " fj=" << vs_hex(c->fj) << " hidej=" << (c->is_enabled(colvardeps::f_cv_hide_Jacobian) ? 1 : 0)
+          << " tsf=" << c->get_time_step_factor() << "\n";
       }
       for (colvarbias *b : cv->biases) {
         colvardeps::feature_state const &fa = b->feature_states[colvardeps::f_cvb_active];
